@@ -43,6 +43,8 @@ type misStep struct {
 	// user of another service provider: recipient, audience and subject are that provider's. Whether a response with such a
 	// companion is accepted at all is open; the assertion handed to the application must be the one meant for this SP.
 	Decoy string `json:"companion_assertion_for_another_sp,omitempty"`
+	// NoAssertion: the response carries no assertion at all
+	NoAssertion bool `json:"no_assertion,omitempty"`
 }
 
 const (
@@ -217,6 +219,10 @@ func genMisroute(g *Rng, tier string) *Plan {
 		if naCount == 0 {
 			st.Labels["audiences"] = "none"
 		}
+		if !clean && g.Bool(0.08) {
+			a.EmptyRestrictions = 1 + g.Intn(2)
+			st.Labels["audience-restriction-without-audience"] = "empty"
+		}
 		if g.Bool(0.15) {
 			a.Encrypt, a.EncryptTo, a.Sign = true, 1, true
 		}
@@ -232,7 +238,13 @@ func genMisroute(g *Rng, tier string) *Plan {
 			st.Labels["unused-ns-declarations"] = "correct" // informational: they change nothing
 		}
 		spec.Assertions = []AsrtSpec{a}
-		if g.Bool(0.15) {
+		if !clean && g.Bool(0.06) {
+			// what an IdP sends when it has nothing to assert (usually beside a non-Success status)
+			st.NoAssertion = true
+			spec.Assertions = nil
+			st.Labels["assertions"] = "none"
+		}
+		if !st.NoAssertion && g.Bool(0.15) {
 			st.Decoy = Pick(g, "first", "first", "last")
 			other := "https://other-sp.example.net/saml"
 			d := AsrtSpec{ID: fmt.Sprintf("id-foreign-%d", i), NameID: marker("victim", i), NotBefore: i64(-1000), NotOnOrAfter: i64(600_000), Sign: a.Sign, SessionIndex: "si-o",
@@ -334,9 +346,12 @@ func execMisroute(t *testing.T, p *Plan) *Result {
 			body = elBytes(respEl)
 		}
 		advance(50 * time.Millisecond)
-		a := st.Spec.Assertions[0]
-		if st.Decoy == "first" {
-			a = st.Spec.Assertions[1]
+		a := AsrtSpec{Issuer: idpEntity} // no assertion: nothing of an assertion can be wrong
+		if !st.NoAssertion {
+			a = st.Spec.Assertions[0]
+			if st.Decoy == "first" {
+				a = st.Spec.Assertions[1]
+			}
 		}
 
 		// ---- oracle from the statement
@@ -367,10 +382,27 @@ func execMisroute(t *testing.T, p *Plan) *Result {
 			case okc < len(a.Audiences) && !k.CustomAud:
 				dc = true // several restrictions of which only some name the SP (DESIGN §7)
 			}
-		} else if k.CustomAud {
+		} else if k.CustomAud && !st.NoAssertion {
 			bad = append(bad, "audience") // this application's validator demands its audience
 		}
+		if a.EmptyRestrictions > 0 {
+			named := false
+			for _, au := range a.Audiences {
+				named = named || au == myAud
+			}
+			switch {
+			case k.CustomAud:
+				dc = true // what the application's validator makes of it is the application's
+			case !named:
+				bad = append(bad, "audience") // restrictions are present and none of them names this SP
+			default:
+				dc = true // beside a restriction that names the SP (several restrictions: DESIGN 7)
+			}
+		}
 		statusBad := st.Spec.Status != saml.StatusSuccess
+		if st.NoAssertion && !statusBad {
+			bad = append(bad, "no-assertion")
+		}
 		if st.Entry == "artifact" {
 			if st.ArtIssuer != "" && st.ArtIssuer != idpEntity {
 				bad = append(bad, "artifact-issuer")
@@ -513,6 +545,9 @@ func simplifyMisroute(p *Plan) []*Plan {
 			s2.Spec.Assertions, s2.Decoy = []AsrtSpec{s2.Spec.Assertions[keep]}, ""
 			c.Steps[i] = mustJSON(s2)
 			out = append(out, c)
+			continue
+		}
+		if st.NoAssertion {
 			continue
 		}
 		a := st.Spec.Assertions[0]
